@@ -203,6 +203,17 @@ def corsSeq (tbl : Config) : CorsCfg → List CorsReq → List (Option Out)
     let r := filterCall lower E cc tbl rq
     r.2 :: corsSeq tbl r.1 rest
 
+/-- a sequence of requests through ONE installed filter value on a container whose route table
+    CHANGES between requests (`ws.Route` on a WebService that is already registered, `ws.RemoveRoute`
+    with dynamic routes — neither passes through the Container): every request comes with the table
+    in force when it arrives.  `computeAllowedMethods` (container.go:434) walks
+    `RegisteredWebServices()` and `ws.Routes()` anew on every call, so the table it reads is that one. -/
+def corsSeqT : CorsCfg → List (Config × CorsReq) → List (Option Out)
+  | _, [] => []
+  | cc, (tbl, rq) :: rest =>
+    let r := filterCall lower E cc tbl rq
+    r.2 :: corsSeqT r.1 rest
+
 /-- what one call WOULD be if `Filter` had a pointer receiver (the writes of `doPreflightRequest`
     persist).  Not the code: used only to show what `C09_no_memory` excludes. -/
 def filterCallPtr (cc : CorsCfg) (tbl : Config) (rq : CorsReq) : CorsCfg × Option Out :=
